@@ -84,6 +84,13 @@ CHECKS = {
         "astropy.io.fits and h5py trusted for the bytes they are handed; stated format limits excluded from the domain.",
         "DESIGN.md §4 C18",
     ),
+    "C20": (
+        "exploration",
+        "Hypothesis property-based testing with scripted numpy.random: full radio field chain against an own evaluation of the parametrisation at the oracle's own bin centres (table read with h5py, angles from explicit 2-D vectors), own voltage/noise formula, and metamorphic relations (linearity in energy, sqrt(N) antennas, permutation) at 1e-12",
+        "Generated geometrically consistent event batches with altitudes on both sides of the validity limits and right-angle views, every 10 MHz-aligned band incl. one-bin and ionosphere bands. Evidence, not proof.",
+        "nearest-entry ties accepted; a stated rounding model for the code's field-line angle at centimetre decay lengths; decay length exactly 0 only together with out-of-range altitudes.",
+        "DESIGN.md §4 C20",
+    ),
     "C19": (
         "exploration",
         "Hypothesis property-based testing: round-trip + pairwise monotonicity + copy-vs-copy differential + independent scalar reference, boundary-heavy generators with exhaustive ulp sweeps of the layer boundaries",
